@@ -49,7 +49,7 @@ func reqFilterFieldsRead(fns []*ssa.Function) map[string]bool {
 					}
 				}
 				if isRead && !freshBase(fa) {
-					out[s.Field(fa.Field).Name()] = true
+					out[an.FieldNameHook(s, fa.Field)] = true
 				}
 			}
 		})
@@ -126,7 +126,7 @@ func setBuilderKeys(c *core.Ctx, call *ssa.Call) []string {
 func runFltExh(c *core.Ctx) {
 	P := c.P
 	// (1) matcher: constructor reads all 7; Match/LimitMatch/Done read all 7 private copies
-	ctor := P.Root.Func("NewReqFilterMatcher")
+	ctor := P.Func(P.Root, "NewReqFilterMatcher")
 	match := P.Method(P.Root, "ReqFilterEventLimitMatcher", "Match")
 	done := P.Method(P.Root, "ReqFilterEventLimitMatcher", "Done")
 	lm := P.Method(P.Root, "ReqFilterEventLimitMatcher", "LimitMatch")
@@ -213,7 +213,7 @@ func runFltExh(c *core.Ctx) {
 		c.Check(len(miss) == 0, []string{"C03"}, fname(c, find), "filter-fields-read", P.Pos(find.Pos()), "the index path consumes all 7 filter fields ("+setList(got)+")", fmt.Sprintf("the index path never reads filter field(s) %v: the indexed and the scanning access path answer differently", miss))
 	}
 	// (3) SQL builder
-	build := P.Sqlite.Func("buildEventQuery")
+	build := P.Func(P.Sqlite, "buildEventQuery")
 	if build == nil {
 		c.NoAnchor([]string{"C06"}, "sqlite.buildEventQuery")
 	} else {
@@ -229,7 +229,7 @@ func runFltExh(c *core.Ctx) {
 // into a query (it reads the list fields of a ReqFilter and calls the SQL
 // builder's Select).
 func sqliteQueryBuilder(c *core.Ctx) *ssa.Function {
-	if f := c.P.Sqlite.Func("buildEventQuery"); f != nil {
+	if f := c.P.Func(c.P.Sqlite, "buildEventQuery"); f != nil {
 		return f
 	}
 	for _, fn := range sqliteFuncs(c) {
@@ -266,7 +266,7 @@ func runFltNil(c *core.Ctx) {
 		}
 	}
 	// the consumers of a filter, each with the private helpers it delegates to
-	add(P.Root.Func("NewReqFilterMatcher"), "C02")
+	add(P.Func(P.Root, "NewReqFilterMatcher"), "C02")
 	add(P.Method(P.Root, "ReqFilterEventLimitMatcher", "Match"), "C02")
 	add(P.Method(P.Root, "eventCacheEvsIndex", "Find"), "C03")
 	add(sqliteQueryBuilder(c), "C06")
@@ -344,7 +344,7 @@ func runFltBnd(c *core.Ctx) {
 		}
 	}
 	// SQL: since ↦ Gte, until ↦ Lte
-	build := P.Sqlite.Func("buildEventQuery")
+	build := P.Func(P.Sqlite, "buildEventQuery")
 	if build == nil {
 		c.NoAnchor([]string{"C06"}, "sqlite.buildEventQuery")
 		return
@@ -912,7 +912,7 @@ func runCombTab(c *core.Ctx) {
 			fmt.Sprintf("combinator starts %v and maps (acc, member) ↦ %s; want start %v and '%s'", init, strings.Join(cells, " "), bs[w.init], w.txt))
 	}
 	// one member per filter, in order
-	ctor := P.Root.Func("NewReqFiltersEventLimitMatcher")
+	ctor := P.Func(P.Root, "NewReqFiltersEventLimitMatcher")
 	if ctor == nil {
 		c.NoAnchor(nil, "NewReqFiltersEventLimitMatcher")
 		return
